@@ -121,6 +121,155 @@ Fixpoint eval (c : cond) (g : Z) (local : bool) {struct c} : cres :=
 Definition detect (c : cond) (g : Z) : cres := eval c g false.
 End Eval.
 
+(* ====================================================================================
+   SPECIFICATION (no proofs here; executable so that the harness can evaluate it, through the
+   extracted driver, on every input and compare the implementation's answer with it).
+   Written from the property text, not from the code: truth value [holds], reason profiles
+   [reasons], ancillary hits [anc_has], and the genes a rule is reported for [rule_hits_spec].
+   ==================================================================================== *)
+Section Spec.
+Variable cx : ctx.
+
+(* the genes closer than the cutoff *)
+Definition near (g : Z) : list Z := feat_others cx g.
+
+Definition count_in (opts : list Z) (o : Z) : Z := zlen (sinter opts (poss cx o)).
+Definition count_total (opts : list Z) (g : Z) : Z :=
+  fold_left (fun acc o => acc + count_in opts o) (near g) (count_in opts g).
+
+Fixpoint holds (c : cond) (g : Z) (local : bool) {struct c} : bool :=
+  match c with
+  | Single neg p => xorb neg (has cx g p || (negb local && existsb (fun o => has cx o p) (near g)))
+  | Score neg p s => xorb neg (scored cx g p s || (negb local && existsb (fun o => scored cx o p s) (near g)))
+  | Minimum neg k opts =>
+    xorb neg (k <=? fold_left (fun acc o => acc + count_in opts o) (near g) (count_in opts g))
+  | Cds neg subs =>
+    let sat := fun g' => existsb (fun it => match it with
+                           | ICond c' => holds c' g' true
+                           | IAnd cs => forallb (fun c' => holds c' g' true) cs end) subs in
+    xorb neg (sat g || (negb local && existsb sat (near g)))
+  | Group neg subs =>
+    xorb neg (existsb (fun it => match it with
+                           | ICond c' => holds c' g local
+                           | IAnd cs => forallb (fun c' => holds c' g local) cs end) subs)
+  end.
+
+(* does gene g satisfy the inner formula of a cds(...) group on its own *)
+Definition sat_local (subs : list item) (g : Z) : bool :=
+  existsb (fun it => match it with
+           | ICond c' => holds c' g true
+           | IAnd cs => forallb (fun c' => holds c' g true) cs end) subs.
+
+(* The reason profiles: the profiles of the formula that hit g itself; negation plays no role; a
+   minimum lists its options found on g whether or not the count is reached; a minscore counts
+   only when g's own score suffices; a cds(...) group counts only when g satisfies the group
+   itself ([local] = the group is itself read on a single gene, which the rule grammar cannot
+   produce: then the code keeps the inner reasons unconditionally, and so does this function;
+   [reasons_text] below is the reading of the property text without that disjunct). *)
+Fixpoint reasons_raw (c : cond) (g : Z) (local : bool) {struct c} : list Z :=
+  match c with
+  | Single _ p => if has cx g p then [p] else []
+  | Score _ p s => if scored cx g p s then [p] else []
+  | Minimum _ _ opts => filter (fun p => has cx g p) opts
+  | Cds _ subs =>
+    if local || sat_local subs g
+    then flat_map (fun it => match it with
+                   | ICond c' => reasons_raw c' g true
+                   | IAnd cs => flat_map (fun c' => reasons_raw c' g true) cs end) subs
+    else []
+  | Group _ subs =>
+    flat_map (fun it => match it with
+              | ICond c' => reasons_raw c' g local
+              | IAnd cs => flat_map (fun c' => reasons_raw c' g local) cs end) subs
+  end.
+Definition reasons (c : cond) (g : Z) (local : bool) : list Z := sof (reasons_raw c g local).
+
+(* the property text, literally: a cds group counts iff g satisfies the group itself *)
+Fixpoint reasons_text_raw (c : cond) (g : Z) {struct c} : list Z :=
+  match c with
+  | Single _ p => if has cx g p then [p] else []
+  | Score _ p s => if scored cx g p s then [p] else []
+  | Minimum _ _ opts => filter (fun p => has cx g p) opts
+  | Cds _ subs =>
+    if sat_local subs g
+    then flat_map (fun it => match it with
+                   | ICond c' => reasons_text_raw c' g
+                   | IAnd cs => flat_map (fun c' => reasons_text_raw c' g) cs end) subs
+    else []
+  | Group _ subs =>
+    flat_map (fun it => match it with
+              | ICond c' => reasons_text_raw c' g
+              | IAnd cs => flat_map (fun c' => reasons_text_raw c' g) cs end) subs
+  end.
+Definition reasons_text (c : cond) (g : Z) : list Z := sof (reasons_text_raw c g).
+
+(* all profiles named by a condition (Conditions.profiles) *)
+Fixpoint profiles (c : cond) : list Z :=
+  match c with
+  | Single _ p => [p]
+  | Score _ p _ => [p]
+  | Minimum _ _ opts => opts
+  | Cds _ subs | Group _ subs =>
+    flat_map (fun it => match it with
+              | ICond c' => profiles c'
+              | IAnd cs => flat_map profiles cs end) subs
+  end.
+
+(* Ancillary hits: gene o supplies profile p to the evaluation at g.  A name that is not on g
+   itself lists every gene in range carrying it (also under `not`, where finding one makes the
+   negated name false); a minimum that g cannot reach alone but reaches with the genes in range
+   lists every gene in range with its options; minscore and cds(...) never list anything; groups,
+   and-chains and or-lists pass on everything their operands list, whatever their truth value. *)
+Fixpoint anc_has (c : cond) (g : Z) (local : bool) (o p : Z) {struct c} : bool :=
+  match c with
+  | Single _ q => negb local && negb (has cx g q) && (p =? q) && smem o (near g) && has cx o p
+  | Score _ _ _ => false
+  | Minimum _ k opts =>
+    negb (k <=? count_in opts g) && (k <=? count_total opts g) && smem o (near g) && smem p opts && has cx o p
+  | Cds _ _ => false
+  | Group _ subs =>
+    existsb (fun it => match it with
+             | ICond c' => anc_has c' g local o p
+             | IAnd cs => existsb (fun c' => anc_has c' g local o p) cs end) subs
+  end.
+
+Definition nonempty {A} (l : list A) : bool := match l with [] => false | _ => true end.
+
+(* the ancillary hits as a canonical association list *)
+Definition anc_spec (c : cond) (g : Z) (local : bool) : anc :=
+  filter (fun e => nonempty (snd e))
+         (map (fun o => (o, filter (anc_has c g local o) (sof (profiles c)))) (sof (map fst (feats cx)))).
+
+(* a gene anchors: formula true at it and at least one reason of its own *)
+Definition anchors (c : cond) (g : Z) : bool := holds c g false && nonempty (reasons c g false).
+
+Definition detect_spec (c : cond) (g : Z) : cres := mkRes (holds c g false) (reasons c g false) (anc_spec c g false).
+End Spec.
+
+(* ---------- apply_cluster_rules, one rule: which genes (with which profiles) the rule is
+   reported for.  Every gene with hits is evaluated in its own context (the features within the
+   cutoff window, and whether the window crosses the origin - computed by code that is C03/C07's
+   subject and taken as given here); an anchoring gene is recorded with its reasons and every
+   ancillary gene of that evaluation is promoted with the profiles it supplied. ---------- *)
+Definition is_anchor (r : cres) : bool := met r && nonempty (matches r).
+Definition apply_rule (c : cond) (evals : list (Z * ctx)) : anc :=
+  fold_left (fun acc e =>
+               let r := detect (snd e) c (fst e) in
+               if is_anchor r then amerge (ancs r) (ainsert (fst e) (matches r) acc) else acc)
+            evals [].
+Definition rule_hits (c : cond) (evals : list (Z * ctx)) : list Z := map fst (apply_rule c evals).
+
+(* specification: (o, p) is recorded iff some anchoring gene g has o = g and p among its reasons, or
+   lists o as ancillary with p *)
+Definition recorded_spec (c : cond) (evals : list (Z * ctx)) (o p : Z) : bool :=
+  existsb (fun e => anchors (snd e) c (fst e) &&
+                    (((o =? fst e) && smem p (reasons (snd e) c (fst e) false)) || anc_has (snd e) c (fst e) false o p))
+          evals.
+Definition apply_rule_spec (c : cond) (evals : list (Z * ctx)) : anc :=
+  filter (fun e => nonempty (snd e))
+         (map (fun o => (o, filter (recorded_spec c evals o) (sof (profiles c))))
+              (sof (flat_map (fun e => fst e :: map fst (feats (snd e))) evals))).
+
 (* ---------- encoding ---------- *)
 Fixpoint dCond (fuel : nat) : dec cond := fun l =>
   match fuel with
@@ -148,8 +297,8 @@ Definition dCtx : dec ctx := fun l =>
   | None => None
   end.
 
-Definition eRes01 (r : cres) : list Z :=
-  eBool (met r) ++ eList (fun x => [x]) (matches r) ++ eList (fun e => fst e :: eList (fun x => [x]) (snd e)) (ancs r).
+Definition eAnc (a : anc) : list Z := eList (fun e => fst e :: eList (fun x => [x]) (snd e)) a.
+Definition eRes01 (r : cres) : list Z := eBool (met r) ++ eList (fun x => [x]) (matches r) ++ eAnc (ancs r).
 
 Definition run_C01 (fn : Z) (l : list Z) : list Z :=
   match fn with
@@ -157,6 +306,30 @@ Definition run_C01 (fn : Z) (l : list Z) : list Z :=
          | Some (cx, r) =>
            match dCond (length r) r with
            | Some (c, [g]) => eRes01 (detect cx c g)
+           | _ => bad_input
+           end
+         | None => bad_input
+         end
+  | 2 => match dCtx l with          (* the specification's answer for the same input *)
+         | Some (cx, r) =>
+           match dCond (length r) r with
+           | Some (c, [g]) => eRes01 (detect_spec cx c g)
+           | _ => bad_input
+           end
+         | None => bad_input
+         end
+  | 3 => match dList (dPair dZ dCtx) l with      (* apply_cluster_rules for one rule *)
+         | Some (evals, r) =>
+           match dCond (length r) r with
+           | Some (c, []) => eAnc (apply_rule c evals)
+           | _ => bad_input
+           end
+         | None => bad_input
+         end
+  | 4 => match dList (dPair dZ dCtx) l with
+         | Some (evals, r) =>
+           match dCond (length r) r with
+           | Some (c, []) => eAnc (apply_rule_spec c evals)
            | _ => bad_input
            end
          | None => bad_input
